@@ -182,21 +182,35 @@ class Struct:
 
 
 def leading_attrs(src, pos):
-    """attribute lines (#[…]) directly above the item starting at `pos` (comments are already blanked)"""
-    lines = src[:pos].split("\n")
-    lines.pop()  # the (partial) line of the item itself
+    """attributes (#[…], possibly spanning several lines) directly above the item starting at `pos`; comments are already
+    blanked.  Each attribute is returned as ONE string (inner newlines kept; callers squash)."""
+    i = src.rfind("\n", 0, pos) + 1  # start of the item's line
+    # an attribute may also sit on the same line before the item keyword: include that part
+    j = pos
     attrs = []
-    while lines:
-        l = lines[-1].strip()
-        if l.startswith("#["):
-            attrs.append(l)
-        elif l == "":
-            pass
-        else:
+    while True:
+        k = j - 1
+        while k >= 0 and src[k].isspace():
+            k -= 1
+        if k < 0 or src[k] != "]":
             break
-        if l == "" and not any(x.strip().startswith("#[") for x in lines[-3:]):
+        # walk back to the matching '[' (strings inside attributes contain no brackets in this code base; checked below)
+        depth, q = 0, k
+        while q >= 0:
+            if src[q] == "]":
+                depth += 1
+            elif src[q] == "[":
+                depth -= 1
+                if depth == 0:
+                    break
+            q -= 1
+        if q <= 0 or src[q - 1] != "#":
             break
-        lines.pop()
+        text = src[q - 1 : k + 1]
+        if text.count("[") != text.count("]"):
+            raise Unknown("attribute with unbalanced brackets near line %d" % line_of(src, q))
+        attrs.append(text)
+        j = q - 1
     return list(reversed(attrs))
 
 
@@ -310,8 +324,9 @@ def find_enums_with_serde(src, file):
             continue
         k = src.index("{", m.end())
         body = src[k : match_close(src, k) + 1]
-        if "serde" in body or any("serde(" in squash(a) for a in attrs):
-            raise Unknown("%s: enum %s carries a serde attribute (not modelled)" % (file, m.group(1)))
+        extra = [" ".join(a.split()) for a in attrs if "serde(" in squash(a)]
+        if "serde" in body or extra:
+            raise Unknown("%s: enum %s carries a serde attribute — its serialised REPRESENTATION is customised (%s), not the derived one the field model assumes; a from/into/with conversion can re-derive instead of store (e.g. the Diagonal/Offdiagonal tag)" % (file, m.group(1), "; ".join(extra) or "variant/field attribute"))
         names.append(m.group(1))
     return names
 
@@ -462,8 +477,8 @@ class Model:
         self.fields = []  # (name, Ty, serde)
         where0 = "%s: struct %s" % (st.file, st.name)
         for a in st.attrs:
-            if serde_attr_payloads(a, where0):
-                raise Unknown("%s: container-level serde attribute not modelled: %s" % (where0, a))
+            if "serde(" in squash(a) and not re.fullmatch(r'#\[cfg_attr\(feature="serialize",derive\((.*)\)\)\]|#\[derive\((.*)\)\]', squash(a)):
+                raise Unknown("%s: container-level serde attribute — the serialised REPRESENTATION of %s is customised (%s), not the derived one the field model assumes" % (where0, st.name, " ".join(a.split())))
         for f in st.fields:
             where = "%s.%s" % (where0, f.name)
             ty = parse_type(f.ty, st.generics, aliases, where)
@@ -877,6 +892,16 @@ def gen_fields(repo):
                 if st.name in structs:
                     raise Unknown("two serde structs named %s" % st.name)
                 structs[st.name] = st
+    n_derives = 0
+    for file in sorted(srcs):
+        src = srcs[file]
+        tspans = [(a, b) for kind, _, a, b, _, attrs in item_spans(src) if any("#[cfg(test)]" in x for x in attrs)]
+        for m in re.finditer(r"derive\s*\(([^)]*)\)", src):
+            if re.search(r"\bSerialize\b", m.group(1)) and not any(a <= m.start() <= b for a, b in tspans):
+                n_derives += 1
+    n_found = len([st for st in structs.values() if st.serde]) + len(enums)
+    if n_derives != n_found:
+        raise Unknown("census: %d `derive(.. Serialize ..)` in non-test code but only %d structs/enums were recognised as serialisable (an attribute or item shape escaped the parser)" % (n_derives, n_found))
     required = ["QmcIsingGraph", "SerializeQmcGraph", "Qmc", "TemperingContainer", "SerializeTemperingContainer",
                 "FastOpsTemplate", "FastOpNodeTemplate", "Allocator", "DefaultFastOpAllocator", "BondWeights", "BondContainer",
                 "Interaction", "BasicOp", "PRel"]
